@@ -32,7 +32,7 @@ PROPS = {
     },
     "C04": {
         "release": True,
-        "ops": [("wrap", FF, 3000, 100000), ("wrap", MIN, 1500, 30000), ("fill2", FF, 1500, 40000), ("fip", FF, 2000, 50000),
+        "ops": [("wrap", FF, 3000, 100000), ("wrap", MIN, 1500, 30000), ("fill2", FF, 1500, 40000), ("fip", FF, 2000, 50000), ("walg", FF, 1000, 20000),
                 ("unfill", FF, 2000, 50000), ("refill", FF, 2000, 50000), ("indent", FF, 1500, 30000), ("dedent", FF, 1500, 30000),
                 ("wc", FF, 1500, 40000), ("dw", FF, 2000, 40000), ("fwa", FF, 1500, 30000), ("fwu", FF, 1500, 30000),
                 ("sw", FF, 1500, 30000), ("bw", FF, 1500, 30000), ("ba", FF, 1500, 30000), ("ff", FF, 1500, 30000),
@@ -65,18 +65,18 @@ PROPS = {
         "assumptions": ["reading of the optimal-fit clause as in DESIGN.md §6/C14"],
     },
     "C03": {
-        "ops": [("of", FF, 12000, 400000), ("wrap", FF, 4000, 150000), ("wsl", FF, 4000, 100000), ("fill2", FF, 2000, 50000), ("api", FF, 1, 1)],
+        "ops": [("of", FF, 12000, 400000), ("wrap", FF, 4000, 150000), ("wsl", FF, 4000, 100000), ("fill2", FF, 2000, 50000), ("api", FF, 1, 1), ("walg", FF, 3000, 60000)],
         "colmin": True,
         "explanation": "theorems: the DP value is a lower bound for EVERY arrangement (Bellman, <=2 line widths), attained by back-tracking any true column minima (conditional on ColMin for smawk, which is not proved), the reference search satisfies ColMin, three widths are a counterexample, wrap hands exactly two widths to the algorithm; L1/L2: exact cost (Q) of the implementation's arrangement = the DP optimum for every generated fragment list inside the precondition, and for every paragraph partition recorded at the wrap level; on integer-valued cases the verdict is that of the extracted Coq function optimal_b, proved sound and complete for 'minimum cost over all arrangements' (C03_checker_sound / _complete)",
         "assumptions": ["ColMin: smawk::online_column_minima returns true column minima on this matrix — NOT proved, exercised on every generated case by the exact-cost comparison"],
     },
     "C06": {
-        "ops": [("ff", FF, 12000, 300000), ("of", FF, 8000, 200000), ("ff", MIN, 3000, 50000), ("wrap", FF, 3000, 60000)],
+        "ops": [("ff", FF, 12000, 300000), ("of", FF, 8000, 200000), ("ff", MIN, 3000, 50000), ("wrap", FF, 3000, 60000), ("walg", FF, 2000, 40000)],
         "explanation": "theorems C06_first_fit (every Num), C06_optimal_fit (any minima with the row<column shape) and C06_optimal_fit_smawk: the executable model of the smawk crate never fails and back-tracking its answer is an ordered partition, for every Num and every comparison (law-free); L1 compares first-fit groups exactly and optimal-fit groups up to equal exact cost; L2 checks the partition shape of the implementation's slices (pointer offsets) and of every recorded wrap-level partition",
         "assumptions": ["the model of smawk (Model/Smawk.v) is tied to the crate by exact agreement on every generated case"],
     },
     "C07": {
-        "ops": [("ff", FF, 15000, 400000), ("ff", MIN, 4000, 60000), ("wrap", FF, 3000, 60000), ("wrap", MIN, 2000, 40000)],
+        "ops": [("ff", FF, 15000, 400000), ("ff", MIN, 4000, 60000), ("wrap", FF, 3000, 60000), ("wrap", MIN, 2000, 40000), ("walg", FF, 3000, 60000), ("walg", MIN, 1500, 30000)],
         "explanation": "theorems: first_fit is Greedy and Greedy determines the arrangement uniquely (NumZ); greedy_b is proved equivalent to Greedy and run (Q arithmetic) on the implementation's lines; text level through the wrap correspondence",
         "assumptions": ["f64 = exact Z/Q on the generated range"],
     },
